@@ -40,10 +40,23 @@ def run(sc, tier, replay):
                 l["fields"] = sorted(l["fields"]) if isinstance(l["fields"], list) else []
                 f.write(json.dumps(l) + "\n")
 
+    # the same layouts with a 3 MiB file where one file is read for several paths (several upstream requests read it at once)
+    import random
+    multi = [l for l in layouts if isinstance(l.get("assign"), dict) and sum(1 for v in l["assign"].values() if v == "A") >= 2]
+    random.Random(vlib.seed()).shuffle(multi)
+    multi = multi[:(480 if thorough else 96)]
+    nbig = 4
+    for k in range(nbig):
+        with open(sc.path("lay%d.ndjson" % (nsh + k)), "w") as f:
+            for l in multi[k::nbig]:
+                l = dict(l)
+                l["fields"] = sorted(l["fields"]) if isinstance(l["fields"], list) else []
+                f.write(json.dumps(l) + "\n")
+
     def one(k):
-        return vlib.run([binary, "-in", sc.path("lay%d.ndjson" % k), "-out", sc.path("up%d.trace" % k)], timeout=1800)
-    with ThreadPoolExecutor(max_workers=nsh) as ex2:
-        rs = list(ex2.map(one, range(nsh)))
+        return vlib.run([binary, "-in", sc.path("lay%d.ndjson" % k), "-out", sc.path("up%d.trace" % k)] + (["-big"] if k >= nsh else []), timeout=1800)
+    with ThreadPoolExecutor(max_workers=nsh + nbig) as ex2:
+        rs = list(ex2.map(one, range(nsh + nbig)))
     runs = []
     n = 0
     for k, r in enumerate(rs):
